@@ -13,7 +13,7 @@
 """
 import fcntl, json, os, re, subprocess, sys, time, hashlib
 
-ROOT = "/verif"
+ROOT = os.path.dirname(os.path.dirname(os.path.abspath(__file__)))
 LEAN = f"{ROOT}/lean"
 HARNESS = f"{ROOT}/harness"
 WORK = f"{ROOT}/work"
@@ -248,7 +248,7 @@ def main():
         h = hashlib.sha1(json.dumps(body, sort_keys=True).encode()).hexdigest()[:8]
         path = f"{ROOT}/replays/{pid}-{seed}-{h}.json"
         body = dict(body); body.update({"property": pid, "seed": seed, "tier": tier, "kind": kind,
-                    "how_to_replay": f"cd /verif && VERIF_SEED={seed} ./check {pid} --tier {tier}   # or: echo '<case>' | lean/.lake/build/bin/xehdriver"})
+                    "how_to_replay": f"cd {ROOT} && VERIF_SEED={seed} ./check {pid} --tier {tier}   # or: echo '<case>' | lean/.lake/build/bin/xehdriver"})
         json.dump(body, open(path, "w"), indent=1)
         return path
     if "harness_run_error" in report:
@@ -288,7 +288,7 @@ def main():
         "property_id": pid, "tier": tier, "seed": seed, "level": cfg.get("level", "proof"),
         "coverage": {
             "obligations": max(1, report["obligations"]), "discharged": report["discharged"],
-            "checker_cmd": f"cd /verif/lean && lake build XehModel.Props.{pid} && lake env lean /verif/work/{pid}/Audit.lean   # #print axioms on every property theorem",
+            "checker_cmd": f"cd {LEAN} && lake build XehModel.Props.{pid} && lake env lean {WORK}/{pid}/Audit.lean   # #print axioms on every property theorem",
             "trusted_base": cfg["trusted_base"],
             "theorems": report["theorems"],
             "proof_failures": report["proof_failures"],
